@@ -48,7 +48,7 @@ TOPOS = {
 }
 
 
-def build(clsname, topo, names, capname, cap, ops_per_thread=1, predirty=False):
+def build(clsname, topo, names, capname, cap, ops_per_thread=1, predirty=False, preread=False):
     k = env.kind_of(clsname)
     objects, handles = TOPOS[topo]
     nres = max(objects) + 1
@@ -69,9 +69,15 @@ def build(clsname, topo, names, capname, cap, ops_per_thread=1, predirty=False):
         # the LAST thread's object already has an unflushed write in the buffer when the threads start (made by the
         # main thread inside the context): a flush forced by the other thread then has something of its to evict
         h = 1 if topo == "second-object-of-dirty-file" else handles[nthreads - 1]
-        prog["setup"] = (("op", h, "setitem", ("pre", 1)) if k == "dict" else ("op", h, "append", ("pre",)),)
-        prog["label"] += "/predirty"
-        prog["topology"] += ":predirty"
+        if preread:
+            # ... or has only been READ so far: its entry sits in the buffer unmodified when the threads start
+            prog["setup"] = (("op", h, "len", ()),)
+            prog["label"] += "/preread"
+            prog["topology"] += ":preread"
+        else:
+            prog["setup"] = (("op", h, "setitem", ("pre", 1)) if k == "dict" else ("op", h, "append", ("pre",)),)
+            prog["label"] += "/predirty"
+            prog["topology"] += ":predirty"
     return prog
 
 
@@ -100,6 +106,9 @@ def plan(tier, seed):
                     for a, b in (("read", w), (w, w), ("read", "reset"), (w, "reset")) + \
                             ((("read", "clear"), ("reset", w), ("clear", w)) if tier != "quick" else ()):
                         p1.append(build(c, topo, [a, b], "mid", mid, predirty=True))
+                    if not env.is_memory_buffered(c):
+                        for a, b in (("read", w), ("read", "reset")):
+                            p1.append(build(c, topo, [a, b], "mid", mid, predirty=True, preread=True))
                 if tier != "quick":
                     for a, b in itertools.combinations_with_replacement(CORE3[k], 2):
                         p2.append(build(c, topo, [a, b], capname, cap))
